@@ -322,4 +322,17 @@ CHECKS = {
         assumptions=["the network transport (gRPC stream) is not exercised: C26 covers the fan-out"],
         technique="differential property-based testing (replica vs master)",
     ),
+    "C32": dict(
+        test="TestC32", level="exploration", shards=16,
+        tiers=dict(quick=dict(checks=60, timeout=600), thorough=dict(checks=3000, timeout=3000)),
+        rule="rapid sets of 1-4 recording triggers with On patterns of three components from {*, literal} and 2-6 buckets "
+             "whose names overlap as prefixes/suffixes and contain regexp metacharacters (AA, XAA, AAX, A.A, AxA, AA+; OHLC "
+             "vs OHLCV), fixed and variable, x 1-6 write requests naming 1-2 buckets, rows spanning two years; oracle: the "
+             "multiset of (trigger, file path, interval index, payload) delivered == the multiset expected from the "
+             "documented rule ('*' = one path component, the rest literal, pattern is a prefix of the path), indices "
+             "computed independently; non-trivial = >=2 triggers with different match sets and a transaction touching "
+             ">=2 files",
+        assumptions=["sequential writers (one transaction group per request); concurrent delivery is not asserted here"],
+        technique="property-based testing against a reference model of the documented matching rule",
+    ),
 }
